@@ -1,33 +1,4 @@
 HOOK_COMMITS = []
 NOTES = ("All checks: Lean 4 theorems about a hand-written model (lean/DefraModel) + differential correspondence "
          "run against /repo on every invocation (harness/*, mounted with go build -overlay). See DESIGN.md.")
-ENGINES = [
-    {"name": "lean", "path": "lean/", "serves_properties": [], "kind_free_text": "Lean 4 model, theorems (Props/), compiled model driver drv"},
-    {"name": "enc", "path": "harness/enc", "serves_properties": ["C17"], "kind_free_text": "Go in-process driver of internal/encoding + keys; byte-exact diff against drv enc"},
-    {"name": "crdt", "path": "harness/crdt", "serves_properties": ["C01", "C02", "C04"], "kind_free_text": "2-4 in-process nodes, local writes + deliveries through the synchronous merge hook; per-step diff of raw doc state and head sets against drv crdt; impl-only oracles (replica equality, counter sums, heads maximal, DAG well-formedness)"},
-]
 NA = {}
-_CRDT_NOTE = ("Trusted: Lean kernel; harness/crdt, harness/node, overlay hook VerifExecuteMerge, Driver/Crdt.lean. PARTIAL: the theorems cover the CRDT algebra "
-              "(order independence, sums, max, sticky delete, head-set step invariant) for all histories; that the walk (isMerged/loadComposites) hands each unmerged "
-              "ancestor to it exactly once, parents first, is checked by executing mirror = canon(merged set) = implementation after every delivery, not yet proved. "
-              "Float counters are outside the model (IEEE addition is not associative).")
-META = {
-    "C01": dict(
-        text="Lean theorems: any two application orders of the same commits (each once) give the same visible document state (all register/counter/delete kinds, null and equal-height ties); head set determined by the merged set; tie-break deterministic. Tied to /repo by running n in-process nodes and the compiled mirror on the same histories and comparing after every write and delivery; replica-vs-replica equality at quiescence is evaluated on the implementation alone.",
-        design_ref="DESIGN.md section 8, C01/C02/C04", note=_CRDT_NOTE,
-        technique="Lean 4 proof (CRDT algebra) + differential correspondence of the merge mirror"),
-    "C02": dict(
-        text="Lean theorems: counter = initial + sum of applied increments (one term per application), order-free; deleted iff some applied commit deletes, never resurrected; a register holds a written value that no applied write exceeds in (height, bytes), hence of greatest height; redelivery of a merged commit collects nothing. Tie as C01, with per-prefix oracles on the implementation (counter = sum over merged closure, register written at greatest merged height, deleted flag).",
-        design_ref="DESIGN.md section 8, C01/C02/C04", note=_CRDT_NOTE,
-        technique="Lean 4 proof (fold characterisations) + differential correspondence of the merge mirror"),
-    "C04": dict(
-        text="Lean theorems: updateHeads computes exactly (heads minus named parents/links) plus the new block, without duplicates, and preserves 'heads = merged commits no merged commit names as parent' for every parents-first history. Content addressing, closure under links, the height rule and genesis determinism are observed on every block of every generated history; the AddDelta rule is re-derived by the mirror for every local write.",
-        design_ref="DESIGN.md section 8, C01/C02/C04", note=_CRDT_NOTE,
-        technique="Lean 4 proof (head-set invariant) + differential correspondence + DAG well-formedness oracles"),
-    "C17": dict(
-        text="Lean theorems (all values, no bound) that the model's key encoders are order embeddings (ascending), order reversing (descending), prefix-free, null-first, compose lexicographically and round-trip through the decoders; the model is tied to internal/encoding and keys byte-for-byte on generated values each run.",
-        design_ref="DESIGN.md section 8, C07/C17",
-        note="Trusted: Lean kernel; harness/enc + Driver/Enc.lean; float value order is defined on bit patterns (sign-magnitude) and compared with Go's < on every generated pair. JSON path encoding is modelled and compared, its order theorem covers scalars under an equal path only.",
-        technique="Lean 4 proof over hand-written model + differential correspondence",
-    ),
-}
